@@ -1,12 +1,14 @@
 package main
 
 import (
+	"encoding/hex"
 	"encoding/json"
 	"fmt"
 	"math"
 	"math/big"
 	"sort"
 	"strings"
+	"unicode/utf8"
 
 	spg "go.1password.io/spg"
 
@@ -92,6 +94,48 @@ type TokRec struct {
 	V string `json:"v"`
 	T int    `json:"t"` // 1 atom, 0 separator
 }
+
+// MarshalJSON keeps token values that are not valid UTF-8 exact (hex), so that outcome keys never merge
+// two different byte strings.
+func (t TokRec) MarshalJSON() ([]byte, error) {
+	if utf8.ValidString(t.V) {
+		return json.Marshal(struct {
+			V string `json:"v"`
+			T int    `json:"t"`
+		}{t.V, t.T})
+	}
+	return json.Marshal(struct {
+		VX string `json:"vx"`
+		T  int    `json:"t"`
+	}{hex.EncodeToString([]byte(t.V)), t.T})
+}
+
+func (t *TokRec) UnmarshalJSON(b []byte) error {
+	var aux struct {
+		V  string `json:"v"`
+		VX string `json:"vx"`
+		T  int    `json:"t"`
+	}
+	if err := json.Unmarshal(b, &aux); err != nil {
+		return err
+	}
+	t.V, t.T = aux.V, aux.T
+	if aux.VX != "" {
+		raw, err := hex.DecodeString(aux.VX)
+		if err != nil {
+			return err
+		}
+		t.V = string(raw)
+	}
+	return nil
+}
+
+// allowInvalidUTF8 is set per property: strings that are not valid UTF-8 (Latin-1 word-list files, stray
+// bytes in custom character strings) are legitimate inputs, but cases whose inputs travel to child
+// processes as JSON cannot carry them.
+var allowInvalidUTF8 = false
+
+var invalidWordPool = []string{"caf\xe9", "\xe9clair", "na\xefve", "x\xff", "x\xff\xfe", "\xfcber", "ok"}
 
 func tokRecs(p *spg.Password) []TokRec {
 	ts := p.Tokens()
@@ -263,6 +307,15 @@ func smallCharRecipe(r *gen.R, maxAlpha, maxLen, maxReq int) spg.CharRecipe {
 			if r.Chance(1, 5) {
 				s = dupSome(r, s)
 			}
+			if r.Chance(1, 8) { // as many characters (with repeats) as the code-point span: "aac", "13355", "addd"
+				lo := rune('a' + r.Intn(20))
+				span := r.Range(3, 5)
+				s = string(lo) + string(lo+rune(span-1))
+				for len(oracle.Chars(s)) < span {
+					s += string(lo)
+				}
+				rec.AllowChars += string(lo + 1) // a character of the gap is allowed
+			}
 			rec.RequireSets = append(rec.RequireSets, s)
 		}
 		if r.Chance(1, 6) { // empty custom set (ignored by the documentation), at any position
@@ -309,6 +362,11 @@ func smallCharRecipe(r *gen.R, maxAlpha, maxLen, maxReq int) spg.CharRecipe {
 					rec.ExcludeChars = "23467890O1"
 				}
 			}
+		}
+		if allowInvalidUTF8 && r.Chance(1, 12) {
+			// stray bytes among the allowed characters (never in required or excluded strings, where the
+			// meaning of "contains a character of the set" is not defined for them): each is a character
+			rec.AllowChars += []string{"\xff\xfe", "\xe9\xe8\xfc", "\xfd\xff", "\xc3\xff"}[r.Intn(4)]
 		}
 		sem := oracle.CharSemOf(rec)
 		if len(sem.Alphabet) <= maxAlpha || try > 200 {
@@ -482,6 +540,15 @@ func wlInput(r *gen.R, minN, maxN int, twins, uncap bool) []string {
 	}
 	if len(words) == 0 {
 		words = []string{"apple"}
+	}
+	if allowInvalidUTF8 && r.Chance(1, 10) { // entries of a Latin-1 file: bytes that are not valid UTF-8
+		for k := r.Range(1, 3); k > 0; k-- {
+			w := invalidWordPool[r.Intn(len(invalidWordPool))]
+			if !seen[w] && (uncap || oracle.Title(w) != w) {
+				seen[w] = true
+				words = append(words, w)
+			}
+		}
 	}
 	if twins {
 		for _, w := range append([]string(nil), words...) {
